@@ -178,7 +178,7 @@ def _expr_ownership(chk, fwd=False):
                              "what the deduction guides / forwarding overloads deduce is then subject to R-OWN.field")
     try:
         units = units + [F.load("lvalue")]
-        chk.ok("R-OWN.lvalue", "drivers/drv_lvalue.h", "every construction from lvalues compiles (double and archetype)",
+        chk.ok("R-OWN.lvalue", "drivers/drv_lvalue.h", "every construction from lvalues compiles",
                key="lvalue")
     except F.ExtractError as ex:
         import re as _re
